@@ -1159,6 +1159,11 @@ DIRECTED_CLI_HISTORIES = [
     ["check", "write", "corrupt", "check", "write", "check", "delete", "check"],
     ["write", "write_fmt", "check", "check_fmt", "write", "check_fmt", "check"],
     ["write", "cr_only", "check", "strip_final_newline", "check", "write", "crlf", "write", "check"],
+    # files that hold the output modulo line endings without having the size of the all-LF or the all-CRLF rendering
+    ["write", "strip_final_newline", "check", "crlf", "check", "write", "check"],
+    ["write", "mixed_eol", "check", "mixed_eol", "check", "strip_final_newline", "check"],
+    ["write_fmt", "mixed_eol", "check_fmt", "strip_final_newline", "check_fmt", "check"],
+    ["write", "crlf", "strip_final_newline", "check", "mixed_eol", "check"],
 ]
 
 
@@ -1184,7 +1189,7 @@ def cli_history(ctx, exe, cdir, k, rng, steps, script=None):
     hist = []
     n = 0
     for step in range(len(script) if script else steps):
-        op = script[step] if script else rng.choice(["write", "check", "check", "write_fmt", "check_fmt", "corrupt", "crlf", "delete", "append_newlines", "cr_only", "strip_final_newline"])
+        op = script[step] if script else rng.choice(["write", "check", "check", "write_fmt", "check_fmt", "corrupt", "crlf", "delete", "append_newlines", "cr_only", "strip_final_newline", "mixed_eol"])
         if op in ("write_fmt", "check_fmt") and want_fmt is None:
             continue
         hist.append(op)
@@ -1220,6 +1225,11 @@ def cli_history(ctx, exe, cdir, k, rng, steps, script=None):
             open(outp, "wb").write(before[:pos] + b"X" + before[pos + 1:])
         elif op == "crlf" and before is not None:
             open(outp, "wb").write(before.replace(b"\r\n", b"\n").replace(b"\n", b"\r\n"))
+        elif op == "mixed_eol" and before is not None:
+            # some line endings LF, some CRLF (which ones depends on the position in the history)
+            parts = before.replace(b"\r\n", b"\n").split(b"\n")
+            k = len(hist) % 3
+            open(outp, "wb").write(b"".join(p + (b"" if i == len(parts) - 1 else (b"\r\n" if i % 3 == k else b"\n")) for i, p in enumerate(parts)))
         elif op == "append_newlines" and before is not None:
             open(outp, "wb").write(before + b"\n\n")
         elif op == "cr_only" and before is not None:
